@@ -76,6 +76,11 @@ def f_cell(vec, source, key, acc):
         got = 'silent-wait:' + type(e).__name__
     except messages.TemplateException as e:
         got = 'message:' + type(e).__name__
+    except Exception as e:
+        if 'Stub' in str(e):
+            raise RuntimeError('stub job cannot follow the code under test: '
+                               '%s' % e)
+        got = 'error:' + type(e).__name__
     waived = source != 'none' or key == ''
     if waived:
         exp = 'pass'
